@@ -1,7 +1,7 @@
 (* C04 — locks: one holder, only live sessions, released whenever the session ends.  Theorems only. *)
 From stdpp Require Import gmap strings.
 From Coq Require Import NArith.
-From Verif Require Import Store.Model Store.Inv Store.Theorems.
+From Verif Require Import Store.Model Store.Inv Store.Theorems Store.SessInv.
 Local Open Scope N_scope.
 
 (* In every reachable state (any history of any commands, transactions included): every lock holder
@@ -64,6 +64,46 @@ Theorem C04_cascade_terminates : forall P idx sid,
   lock_only P -> drop_ok P -> forall s, P s -> post P id (delete_session_top idx sid s).
 Proof. exact delete_session_top_preserves. Qed.
 
+(* The triggers: in every reachable state a live session's node is registered, and every check it
+   is bound to exists on that node, is linked to it and is not critical (a check of type "session"
+   excepted, which session creation accepts in critical state).  So the step that deregisters the
+   node, deletes a bound check or makes it critical -- a registration, a deregistration, a
+   transaction verb, a node rename, a cascade of another session's end -- has ended the session,
+   and by C04_gone_session_holds_nothing its keys, links and queries are released with it. *)
+Theorem C04_sessions_valid : forall log sid ss,
+  sessions (run log st0).1 !! sid = Some ss ->
+  is_Some (nodes (run log st0).1 !! s_node ss) /\
+  forall cid, cid ∈ s_checks ss ->
+    (s_node ss, cid, sid) ∈ schecks (run log st0).1 /\
+    exists c, checks (run log st0).1 !! (s_node ss, cid) = Some c /\
+              (c_status c = critical -> c_session_type c = true).
+Proof. exact sessions_valid. Qed.
+
+Theorem C04_session_validity_step : forall idx c s, SessValid s -> SessValid (apply idx c s).1.
+Proof. exact apply_SessValid. Qed.
+
+Theorem C04_trigger_ends_session : forall log sid ss,
+  let s := (run log st0).1 in
+  (nodes s !! s_node ss = None \/
+   exists cid, cid ∈ s_checks ss /\
+     match checks s !! (s_node ss, cid) with
+     | None => True
+     | Some c => c_status c = critical /\ c_session_type c = false
+     end) ->
+  sessions s !! sid ≠ Some ss.
+Proof. exact trigger_ends_session. Qed.
+
+(* Non-vacuity of the triggers: the session of C04_example is bound to check c1; a registration
+   that leaves c1's status out (the store defaults it to critical) ends it and releases its key. *)
+Example C04_trigger_example :
+  let s := (run (ld_log ++ [(4, Register "n1" "" 1 false None [CheckReq "n1" "c1" 3 "" false "" 0 0])]) st0).1 in
+  sessions s !! "s1" = None /\ (exists e, kvs s !! "a" = Some e /\ kv_session e = "") /\
+  sessions (run ld_log st0).1 !! "s1" = Some (Sess "n1" "" false ["c1"] true 2).
+Proof.
+  cbv zeta. split; [vm_compute; reflexivity|]. split; [eexists; split; vm_compute; reflexivity|].
+  vm_compute; reflexivity.
+Qed.
+
 (* Non-vacuity: a state with a locked key, a check link and a bound query satisfies the invariant
    non-trivially. *)
 Example C04_example :
@@ -83,4 +123,8 @@ Print Assumptions C04_session_end_keys.
 Print Assumptions C04_acquire.
 Print Assumptions C04_release_only_holder.
 Print Assumptions C04_cascade_terminates.
+Print Assumptions C04_sessions_valid.
+Print Assumptions C04_session_validity_step.
+Print Assumptions C04_trigger_ends_session.
+Print Assumptions C04_trigger_example.
 Print Assumptions C04_example.
